@@ -16,6 +16,13 @@ NUM_RE = re.compile(r"^-?\d+$")
 
 
 # ------------------------------------------------------------------ JSON -> TLA+
+def enc(s):
+    """injective ASCII rendering of a text for the TLA+ data module (the specification only compares, joins and
+    classifies texts, so any injective renaming of characters is sound): characters outside printable ASCII and the
+    brace itself become {U+XXXX}"""
+    return "".join(c if (32 <= ord(c) <= 126 and c != "{") else "{U+%04X}" % ord(c) for c in s)
+
+
 def js_tla(x):
     if x is None:
         return '[t |-> "null"]'
@@ -24,13 +31,13 @@ def js_tla(x):
     if isinstance(x, int):
         return '[t |-> "num", v |-> "%d"]' % x
     if isinstance(x, str):
-        return '[t |-> "str", v |-> %s]' % tlc.tla_str(x)
+        return '[t |-> "str", v |-> %s]' % tlc.tla_str(enc(x))
     if isinstance(x, list):
         return '[t |-> "arr", v |-> <<%s>>]' % ", ".join(js_tla(v) for v in x)
     if isinstance(x, dict):
         if not x:
             return '[t |-> "obj", v |-> <<>>]'
-        return '[t |-> "obj", v |-> (%s)]' % " @@ ".join("%s :> %s" % (tlc.tla_str(k), js_tla(v)) for k, v in x.items())
+        return '[t |-> "obj", v |-> (%s)]' % " @@ ".join("%s :> %s" % (tlc.tla_str(enc(k)), js_tla(v)) for k, v in x.items())
     raise ValueError("no TLA value for %r" % (x,))
 
 
@@ -212,7 +219,10 @@ def random_doc(rnd, nres=(1, 2), nscope=(0, 2), nspan=(0, 3), holes=0.2):
                 maybe(sp, "span_id", "s%d" % cnt[0])
                 if rnd.random() < 0.6:
                     sp["parent_span_id"] = rnd.choice([None, "s%d" % rnd.randrange(1, cnt[0] + 1)])
-                maybe(sp, "name", rnd.choice(["/get", "/put", "op"]))
+                # texts as they occur in real telemetry: accents, CJK, quotes and backslashes, and the Unicode line
+                # separators U+2028 / U+2029 / U+0085, which are ordinary characters inside a JSON string
+                maybe(sp, "name", rnd.choice(["/get", "/put", "op"]) if rnd.random() < 0.85 else
+                      rnd.choice(["caf\u00e9", "check\u2028out", "step\u0085two", "\u6f22\u5b57", "q\"uo\\te", "para\u2029graph {x}"]))
                 ts = 1723544132228102912 + cnt[0] * 1000
                 st = rnd.random()
                 sp["start_time_unix_nano"] = ts if st < 0.6 else (str(ts) if st < 0.9 else "soon")
@@ -255,7 +265,7 @@ def texts_of(x, out):
 
 
 def case_tla(c, obs):
-    o = "<<" + ", ".join("(" + " @@ ".join("%s :> %s" % (tlc.tla_str(f), tlc.tla_str("<null>" if r.get(f) is None else str(r[f])))
+    o = "<<" + ", ".join("(" + " @@ ".join("%s :> %s" % (tlc.tla_str(f), tlc.tla_str("<null>" if r.get(f) is None else enc(str(r[f]))))
                                              for f in FIELDS) + ")" for r in obs) + ">>"
     return "[docs |-> <<%s>>, map |-> %s, obs |-> %s]" % (", ".join(js_tla(d) for d in c["docs"]), map_tla(c["map"]), o)
 
